@@ -13,6 +13,7 @@ import (
 	"testing"
 
 	"github.com/zeromicro/go-zero/core/logx"
+	"github.com/zeromicro/go-zero/core/mapping"
 	gen "github.com/zeromicro/go-zero/internal/verifc08"
 	"github.com/zeromicro/go-zero/internal/verifkit"
 	"github.com/zeromicro/go-zero/rest/httpx"
@@ -148,6 +149,25 @@ func judge(fatal func(string, ...any), st *verifkit.Stats, spec *gen.Type, in *g
 	}
 }
 
+func interfere(t *rapid.T, st *verifkit.Stats, spec *gen.Type) {
+	iv := gen.GenInterference(t, spec)
+	var opts []mapping.UnmarshalOption
+	if iv.Canon != nil {
+		opts = append(opts, mapping.WithCanonicalKeyFunc(iv.Canon))
+	}
+	target := reflect.New(iv.Twin.RType())
+	func() {
+		defer func() {
+			if p := recover(); p != nil {
+				t.Fatalf("C08 (no input makes the unmarshaller panic) VIOLATED: panic %v\n  type: %s\n  doc: %s\n  canonical key function: %s",
+					p, iv.Twin, gen.RenderJSON(iv.Doc), iv.CanonName)
+			}
+		}()
+		_ = mapping.NewUnmarshaler("json", opts...).Unmarshal(iv.Doc, target.Interface())
+	}()
+	st.Class("interference:" + iv.CanonName)
+}
+
 func TestVerifC08Httpx(t *testing.T) {
 	logx.Disable()
 	st := verifkit.New("httpx")
@@ -180,6 +200,11 @@ func TestVerifC08Httpx(t *testing.T) {
 				if in.ViolatedOptions >= 2 {
 					st.NonTrivial(spec.String() + " <- " + req + " [" + in.What + "]")
 				}
+			}
+			// an unrelated decode of a type with the same tag texts, through an unmarshaler with
+			// another canonical key function, before the judged request (result not judged here)
+			if rapid.IntRange(0, 2).Draw(t, "interfere") == 0 {
+				interfere(t, st, spec)
 			}
 			judge(t.Fatalf, st, spec, in, norm, req, func() *http.Request {
 				r, _, _ := buildRequest(in.Docs, bodyless, formInBody)
